@@ -281,7 +281,7 @@ def evaluate__map_find(self: XPathFunction, context: ta.ContextType = None) -> X
                 collect_matching_items(y)
         elif isinstance(obj, XPathMap):
             for k, v in obj.items(context):
-                if k == key:
+                if same_key(k, key):
                     items.append(v)
                 collect_matching_items(v)
 
